@@ -49,10 +49,38 @@ def run_world(w, plan=None, sched=None, timeout=120, keep=False, scans_override=
             shutil.rmtree(root, ignore_errors=True)
 
 
+def prepare_links(w, btree, scans_override=None):
+    """Where the tool itself resolves symbolic links: export files (opened by path) and scan roots (the walk follows
+    its root).  A link below another scan directory is NOT followed by that directory's walk, so a world in which a
+    scan directory lies above a linked scan root loses the linked root (the model file system has one spelling per
+    walk).  Returns (arguments for worldgen.snapshot, the possibly reduced scans_override); may reduce w.scans."""
+    links = [rel for rel, what in w.files.items() if what[0] == "symlink" and len(rel) == 1 and rel[0].startswith(b"lnk")]
+
+    def rel_of(s):
+        if isinstance(s, tuple):
+            return tuple(s)
+        if s == btree or s.startswith(btree + b"/"):
+            comps = [c for c in s[len(btree):].split(b"/") if c]
+            return None if any(c in (b".", b"..") for c in comps) else tuple(comps)
+        return None
+    cur = list(scans_override) if scans_override is not None else list(w.scans)
+    for r in links:
+        rels = [rel_of(s) for s in cur]
+        if any(x is not None and x == r[:len(x)] and len(x) < len(r) for x in rels):
+            cur = [s for s, x in zip(cur, rels) if x is None or x[:len(r)] != r]
+    if scans_override is not None:
+        scans_override = cur
+    else:
+        w.scans = cur
+    links = [r for r in links if any(x is not None and x[:len(r)] == r for x in [rel_of(s) for s in cur])]
+    return (tuple(w.export), links), scans_override
+
+
 def run_in_tree(w, tree, rr, plan=None, sched=None, timeout=120, scans_override=None, export_override=None, presented=None):
     btree = os.fsencode(tree)
     rr.tree = tree
-    rr.before = worldgen.snapshot(tree)
+    rr.follow, scans_override = prepare_links(w, btree, scans_override)
+    rr.before = worldgen.snapshot(tree, *rr.follow)
     spec = []
     pres = presented if presented is not None else w.presented
     rr.presented = pres
@@ -94,7 +122,7 @@ def run_in_tree(w, tree, rr, plan=None, sched=None, timeout=120, scans_override=
         rr.stdout = (ex.stdout or b"").decode("utf-8", "replace")
         rr.stderr = "timeout"
     rr.raw = open(out_path).read().splitlines() if os.path.exists(out_path) else []
-    rr.after = worldgen.snapshot(tree)
+    rr.after = worldgen.snapshot(tree, *rr.follow)
     parse_log(rr)
     return rr
 
@@ -329,6 +357,8 @@ def validator_input(case_id, rr, ce):
             out.append("fsdir " + penc(p))
         elif what[0] == "file":
             out.append("fsfile %s %d %d %s" % (penc(p), what[2][0], what[2][1], what[1].hex() or "-"))
+            if len(what) > 3 and what[3]:
+                out.append("fslink " + penc(p))
     for ev in ce["prelude"]:
         out.append("pre %d %s" % (ev["seq"], event_line(ev)))
     for ln, nodes in ce["index"]:
